@@ -210,7 +210,7 @@ Qed.
 Lemma at_refines t s p k id :
   Inv t s ->
   Inv (fst (fst (at_ t p (ik k) id))) (fst (spec_step s (At p k id))) /\
-  res_obs (snd (fst (at_ t p (ik k) id))) = snd (spec_step s (At p k id)).
+  res_prop (At p k id) (snd (fst (at_ t p (ik k) id))) = snd (spec_step s (At p k id)).
 Proof.
   intros HI.
   destruct (at_state t p (ik k) id) as [root' [c [m [Hfound [Hget [Hframe [Hres _]]]]]]].
@@ -222,7 +222,7 @@ Proof.
   cbn [spec_step]. rewrite <- Hcur.
   destruct (find_iface (ik k) (ifaces c)) eqn:Ek.
   - (* duplicate: refused, nothing changes *)
-    rewrite Hs in *. cbn [fst snd res_obs]. split; [|reflexivity].
+    rewrite Hs in *. cbn [fst snd res_obs res_prop]. split; [|reflexivity].
     intros q k'. rewrite <- HI.
     destruct (prefix p q) eqn:Epq; [|apply Hframe; [exact Epq | apply ik_not_std3]].
     apply prefix_app in Epq as [r ->].
@@ -231,7 +231,7 @@ Proof.
       destruct Hfound as [-> | [-> [_ Hf]]]; [reflexivity|].
       rewrite Hf in Ek; [discriminate | apply ik_not_std3].
     + apply (ulookup_below t root' p c c); [exact Hfound | exact Hget | reflexivity | discriminate].
-  - destruct Hs as [Hadded Hs]. rewrite Hadded. cbn [fst snd res_obs]. split; [|reflexivity].
+  - destruct Hs as [Hadded Hs]. rewrite Hadded. cbn [fst snd res_obs res_prop]. split; [|reflexivity].
     intros q k'.
     destruct (prefix p q) eqn:Epq.
     + apply prefix_app in Epq as [r ->].
@@ -402,7 +402,9 @@ Qed.
 Lemma remove_refines t s p k :
   Inv t s -> flag24 s (Rm p k) = None ->
   Inv (fst (fst (remove t p (ik k)))) (fst (spec_step s (Rm p k))) /\
-  res_obs (snd (fst (remove t p (ik k)))) = snd (spec_step s (Rm p k)).
+  res_prop (Rm p k) (snd (fst (remove t p (ik k)))) = snd (spec_step s (Rm p k)) /\
+  (* beyond the property: the flag says whether nothing is left at p *)
+  (forall b, snd (fst (remove t p (ik k))) = Ok b -> b = bare (sdel s p k) p).
 Proof.
   intros HI Hflag.
   pose proof (remove_state t p (ik k)) as Hst.
@@ -410,11 +412,11 @@ Proof.
   cbn [spec_step]. cbn [flag24] in Hflag.
   destruct (get_child t p) as [c|] eqn:Hc.
   2:{ rewrite <- Hpk. destruct (remove t p (ik k)) as [[t' r] sg]. cbn in Hst. inversion Hst; subst.
-      cbn. split; [exact HI | reflexivity]. }
+      cbn. split; [exact HI|]. split; [reflexivity | discriminate]. }
   destruct (find_iface (ik k) (ifaces c)) as [v|] eqn:Ek.
   2:{ rewrite <- Hpk. destruct Hst as [root' [Hres Hsame]].
       destruct (remove t p (ik k)) as [[t' r] sg]. cbn in Hres. inversion Hres; subst. cbn.
-      split; [|reflexivity]. intros q k'. rewrite Hsame by apply ik_not_std3. apply HI. }
+      split; [|split; [reflexivity | discriminate]]. intros q k'. rewrite Hsame by apply ik_not_std3. apply HI. }
   rewrite <- Hpk in *. cbn zeta in Hst.
   destruct Hst as [root' [Hget [Hframe Hrest]]].
   pose proof (remove_iface_spec (ik k) c) as Hs. rewrite Ek in Hs. destruct Hs as [_ Hs].
@@ -461,9 +463,9 @@ Proof.
       apply prefix_app in Epq as [r ->]. destruct r as [|y r].
       * rewrite app_nil_r. symmetry. apply Hbare.
       * symmetry. apply (has_descendant_false _ _ Ehd). apply strict_prefix_app_true. discriminate.
-    + f_equal. symmetry. apply bare_spec. exact Hbare.
+    + split; [reflexivity|]. intros b Hb. inversion Hb; subst b. symmetry. apply bare_spec. exact Hbare.
   - destruct (remove t p (ik k)) as [[t' r] sg]. cbn in Hrest. inversion Hrest; subst t' r. cbn [fst snd res_obs].
-    split; [exact HI'|]. f_equal. symmetry.
+    split; [exact HI'|]. split; [reflexivity|]. intros b Hb. inversion Hb; subst b. symmetry.
     destruct (bare (sdel s p k) p) eqn:Eb; [|reflexivity].
     rewrite bare_spec in Eb. assert (emptied (sdel s p k) p = true); [|congruence].
     apply emptied_spec. intros k' _. apply Eb.
@@ -473,11 +475,11 @@ Qed.
 Lemma step_refines t s o :
   Inv t s -> flag24 s o = None ->
   Inv (fst (fst (mstep t o))) (fst (spec_step s o)) /\
-  res_obs (snd (fst (mstep t o))) = snd (spec_step s o).
+  res_prop o (snd (fst (mstep t o))) = snd (spec_step s o).
 Proof.
   intros HI Hf. destruct o as [p k id | p k]; cbn [mstep].
   - apply at_refines; exact HI.
-  - apply remove_refines; assumption.
+  - destruct (remove_refines t s p k HI Hf) as [H1 [H2 _]]. split; assumption.
 Qed.
 
 Lemma run_refines : forall h t s,
@@ -498,6 +500,16 @@ Lemma first_flag_app : forall pre post s, first_flag s (pre ++ post) = None -> f
 Proof.
   induction pre as [|o pre IH]; intros post s H; cbn in *; [reflexivity|].
   destruct (flag24 s o); [discriminate|]. eapply IH; exact H.
+Qed.
+
+Lemma first_flag_mid : forall pre o post s, first_flag s (pre ++ o :: post) = None ->
+  first_flag s pre = None /\ flag24 (fst (spec_run s pre)) o = None.
+Proof.
+  induction pre as [|o' pre IH]; intros o post s H; cbn [app first_flag spec_run] in *.
+  - split; [reflexivity|]. cbn. destruct (flag24 s o); [discriminate | reflexivity].
+  - destruct (flag24 s o'); [discriminate|].
+    destruct (IH o post _ H) as [H1 H2]. split; [exact H1|].
+    destruct (spec_step s o') as [s1 y]. cbn [fst] in *. destruct (spec_run s1 pre) as [s2 ys]. exact H2.
 Qed.
 
 (* the flat map never panics *)
@@ -551,6 +563,19 @@ Proof.
   - rewrite Hr. apply spec_no_panic.
 Qed.
 
+(* beyond the property text: outside the known classes the flag returned by a successful removal
+   says whether nothing at all is left registered at the path *)
+Theorem remove_flag_partial : forall h, ~ Known_C24 h -> forall pre p k post b, h = pre ++ Rm p k :: post ->
+  snd (fst (remove (model_state pre) p (ik k))) = Ok b -> b = bare (sdel (spec_state pre) p k) p.
+Proof.
+  intros h Hk pre p k post b -> Hb.
+  assert (Hf : first_flag [] (pre ++ Rm p k :: post) = None).
+  { unfold Known_C24 in Hk. destruct (first_flag [] (pre ++ Rm p k :: post)); [exfalso; apply Hk; discriminate | reflexivity]. }
+  destruct (first_flag_mid _ _ _ _ Hf) as [Hpre Hstep].
+  destruct (run_refines pre root0 [] Inv_init Hpre) as [HI _].
+  destruct (remove_refines _ _ p k HI Hstep) as [_ [_ Hflag]]. apply Hflag. exact Hb.
+Qed.
+
 Definition sa : seg := B "a".
 Definition sb : seg := B "b".
 
@@ -572,9 +597,10 @@ Proof. repeat split; vm_compute; reflexivity. Qed.
 Lemma manager_refuted :
   sget (spec_state h_manager) [sa] KM = Some 2%N /\
   ok_opt (lookup (model_state h_manager) [sa] (ik KM)) = None /\
-  model_results h_manager <> spec_results h_manager /\
+  ok_opt (call (model_state h_manager) [sa] (ik KM)) = None /\
+  seen_at (model_state h_manager) [sa] (ik KM) = false /\
   first_flag [] h_manager = Some ManagerDropped.
-Proof. repeat split; try (vm_compute; reflexivity). vm_compute. discriminate. Qed.
+Proof. repeat split; vm_compute; reflexivity. Qed.
 
 Lemma full_statement_false : ~ C24_full_statement.
 Proof.
@@ -590,6 +616,6 @@ Definition h_clean : list op :=
    Rm [] K3; At [sa] KM 9; Rm [sa] KM; At [sa; sb] K1 11; Rm [sa; sb] K1].
 
 Lemma h_clean_ok : ~ Known_C24 h_clean /\
-  spec_results h_clean = [RBool true; RBool true; RBool false; RErr; RBool true; RBool true; RBool true;
-                          RBool false; RBool true; RBool false; RBool true; RBool true].
+  spec_results h_clean = [RBool true; RBool true; RBool false; RErr; RDone; RBool true; RBool true;
+                          RDone; RBool true; RDone; RBool true; RDone].
 Proof. split; [intros H; apply H; vm_compute; reflexivity | vm_compute; reflexivity]. Qed.
